@@ -1143,11 +1143,25 @@ class Interp:
             self.exec_block(st.orelse, frame)
 
     def st_With(self, st, frame):
+        managers = []
         for item in st.items:
             v = self.eval(item.context_expr, frame)
+            entered = v
+            if isinstance(v, Obj) and v.cls.lookup('__enter__') is not None:
+                entered = self.call(self.getattr(v, '__enter__'), [], {})
+            elif is_abstract(v) and hasattr(v, 'abs_enter'):
+                entered = v.abs_enter(self)
+            managers.append(v)
             if item.optional_vars is not None:
-                self.assign(item.optional_vars, v, frame, st)
-        self.exec_block(st.body, frame)
+                self.assign(item.optional_vars, entered, frame, st)
+        try:
+            self.exec_block(st.body, frame)
+        finally:
+            for v in reversed(managers):
+                if isinstance(v, Obj) and v.cls.lookup('__exit__') is not None:
+                    self.call(self.getattr(v, '__exit__'), [None, None, None], {})
+                elif is_abstract(v) and hasattr(v, 'abs_exit'):
+                    v.abs_exit(self)
 
     def st_Try(self, st, frame):
         try:
